@@ -250,6 +250,42 @@ def run(ctx):
             report("files after the command differ from the model (%s): impl changed %s, model %s" % (desc, sorted(changed), sorted(mchanged)), replay, True)
         if len(ctx.samples) < 6 and code in (1, 2) and "cwd=/top" in desc:
             ctx.sample({"argv": args, "cwd": cwd, "state": desc.split("|")[1], "exit": code})
+    # ---- structural coincidences: a protected file is deleted while its TWIN (same content) is intact, so every slice is
+    # still findable - the file is missing all the same: verify must say so (1), repair must restore it (0) ----
+    tw = L.gen_content(rng, "random", 13)
+    twfiles = {SETDIR + "/t1.dat": tw, SETDIR + "/t2.dat": tw, SETDIR + "/t3.dat": L.gen_content(rng, "random", 6)}
+    cr = L.parse_result(ctx.run_lines(vh, [L.line_create("p2", "mem", SETDIR + "/tw.par2", 4, 2, 1, list(twfiles), twfiles)])[0])
+    if cr["res"] == "ok":
+        fulltw = L.apply_changed(twfiles, cr["changed"])
+        for victim in (SETDIR + "/t1.dat", SETDIR + "/t2.dat"):
+            fs = dict(fulltw); del fs[victim]
+            for args, want in ((["v", SETDIR + "/tw.par2"], 1), (["r", SETDIR + "/tw.par2"], 0)):
+                code, changed, panicked, tail = run_par(par, SETDIR, args, fs, dirs=[SETDIR])
+                mcode, _ = parse_model(ctx.run_lines(model, [model_line(SETDIR, "abs", args, fs)])[0])
+                after = L.apply_changed(fs, changed)
+                ctx.count("twin|%s|%s" % (victim, args[0]), True)
+                dist["kind"]["twin"] = dist["kind"].get("twin", 0) + 1
+                replay = {"cwd": SETDIR, "view": "abs", "args": args, "fs_hex": {k: L.hx(v) for k, v in fs.items()}, "desc": "twin of a deleted file intact",
+                          "impl_exit": code, "model_exit": mcode, "output_tail": tail, "class": {"kind": "twin"}}
+                if code != want or (args[0] == "r" and after.get(victim) != tw):
+                    report("exit status %d with %s missing while its twin is intact: the property requires %d%s" %
+                           (code, victim, want, "" if args[0] == "v" else " and the file restored"), replay)
+                elif code != mcode:
+                    report("exit status %d, the model says %s (twin state)" % (code, mcode), replay, True)
+    # ---- create with a DIRECTORY in the way of one of the recovery files: the write of that file fails, the set is
+    # incomplete, and the exit status must say so ----
+    for volname in ("new.vol00+01.par2", "new.vol01+02.par2"):
+        fs = dict(inputs); fs[SETDIR + "/" + volname + "/keep"] = b"a directory is in the way"
+        args = ["c", "-s", "8", "-c", "3", SETDIR + "/new.par2", SETDIR + "/n1.dat", SETDIR + "/sub/n2.dat"]
+        code, changed, panicked, tail = run_par(par, SETDIR, args, fs, dirs=[SETDIR, SETDIR + "/sub", SETDIR + "/" + volname])
+        mcode, _ = parse_model(ctx.run_lines(model, [model_line(SETDIR, "abs", args, fs)])[0])
+        ctx.count("create-blocked|" + volname, True)
+        dist["kind"]["create-blocked"] = dist["kind"].get("create-blocked", 0) + 1
+        replay = {"cwd": SETDIR, "view": "abs", "args": args, "fs_hex": {k: L.hx(v) for k, v in fs.items()}, "desc": "create with a directory at " + volname,
+                  "impl_exit": code, "model_exit": mcode, "output_tail": tail, "class": {"kind": "create-blocked"}}
+        if code == 0:
+            report("par create exits 0 although the recovery file %s could not be written (a directory is in the way): the set is incomplete" % volname, replay)
+        # (no comparison with the model here: the model's file system has no directories to write onto - its write succeeds)
     ctx.report_genlink(gen_fail, "GoLinkC20")
     return ctx.finish(
         "proof",
